@@ -78,7 +78,8 @@ def string_repetition(v, parent):
             and (is_string_constant(parent.left) or is_string_constant(parent.right)))
 
 
-def py_exempt(v, parent, file_path, max_small):
+@opaque
+def py_exempt(v: Any, parent: PyNode, file_path: OptPath, max_small: Int) -> Bool:
     """The documented exempt positions of a Python literal with value v whose parent node is `parent`.
     NOTE: no allowed_numbers argument -- the exemption does not depend on the allowed list (frame condition used
     by the delta lemma)."""
@@ -212,6 +213,9 @@ class IsAcceptableUsagePattern:
 class IsAcceptableContext:
     def requires(node, parent, file_path, config):
         return isinstance(node, ast.Constant) and max_small_ok(config)
+
+    def reveals(node, parent, file_path, config):
+        return reveal(py_exempt, node.value, parent, file_path, max_small_of(config))
 
     def ensures_exactly_the_documented_exemptions(node, parent, file_path, config, result):
         # docs "Acceptable Contexts": constant definitions, small range()/enumerate(), test files, string repetition
@@ -382,10 +386,22 @@ PyLitT = TupleOf(PyNode, PyNode, Any, Int)  # (node, parent, value, line) as pro
 
 RULE_ID = "magic-numbers.numeric-literal"
 
-# inline suppression directives (# thailint: ignore, # noqa, ...) are property C04's subject: here they are an
-# uninterpreted predicate of the violation's (rule id, line) and the file content
-inline_ignored = uf("c02_inline_ignored", [Str, Int, Opt(Str)], Bool)
-ts_inline_ignored = uf("c02_ts_inline_ignored", [Str, Int, Opt(Str)], Bool)
+# inline suppression directives (# thailint: ignore, # noqa, ignore files ...) are property C04's subject: here they are
+# an uninterpreted predicate of the violation's (rule id, file path, line) and the file content, for a fixed project
+# on disk (repository-level ignore files are environment)
+def _native_ignored(method):
+    def run(rule_id, file_path, line, content):
+        import types as _t
+        from src.core.types import Violation
+        from src.linters.magic_numbers.linter import MagicNumberRule
+        v = Violation(rule_id=rule_id, file_path=file_path, line=line, column=0, message="")
+        return bool(getattr(MagicNumberRule(), method)(v, _t.SimpleNamespace(file_content=content, file_path=None)))
+    return run
+
+
+inline_ignored = uf("c02_inline_ignored", [Str, Str, Int, Opt(Str)], Bool, concrete=_native_ignored("_should_ignore"))
+ts_inline_ignored = uf("c02_ts_inline_ignored", [Str, Str, Int, Opt(Str)], Bool,
+                       concrete=_native_ignored("_should_ignore_typescript"))
 
 
 def in_allowed(value, allowed):
@@ -418,16 +434,16 @@ class ShouldFlagNumber:
 @contract(LI + "MagicNumberRule._should_ignore", props=["C02"], types=dict(self=RuleT, violation=ViolationT, context=CtxT),
           returns=Bool,
           assumed="inline suppression directives (ignore parser, # noqa): subject of property C04; for C02 an "
-                  "uninterpreted predicate of (rule id, line, file content)")
+                  "uninterpreted predicate of (rule id, file path, line, file content) for a fixed project on disk")
 class ShouldIgnore:
     def value(self, violation, context):
-        return inline_ignored(violation.rule_id, violation.line, context.file_content)
+        return inline_ignored(violation.rule_id, violation.file_path, violation.line, context.file_content)
 
 
 @opaque
 def py_reported(lit: PyLitT, file_path: OptPath, content: Opt(Str), allowed: SeqOf(Int), max_small: Int) -> Bool:
     """A collected literal (node, parent, value, line) is reported: flagged and not suppressed by a directive."""
-    return py_flag(lit[2], lit[1], file_path, allowed, max_small) and not inline_ignored(RULE_ID, lit[3], content)
+    return py_flag(lit[2], lit[1], file_path, allowed, max_small) and not inline_ignored(RULE_ID, fp_text(file_path), lit[3], content)
 
 
 @opaque
@@ -1069,15 +1085,15 @@ class ShouldFlagTypescriptNumber:
 @contract(LI + "MagicNumberRule._should_ignore_typescript", props=["C02"],
           types=dict(self=RuleT, violation=ViolationT, context=CtxT), returns=Bool,
           assumed="inline suppression directives (// thailint: ignore, // noqa): subject of property C04; for C02 an "
-                  "uninterpreted predicate of (rule id, line, file content)")
+                  "uninterpreted predicate of (rule id, file path, line, file content) for a fixed project on disk")
 class ShouldIgnoreTypescript:
     def value(self, violation, context):
-        return ts_inline_ignored(violation.rule_id, violation.line, context.file_content)
+        return ts_inline_ignored(violation.rule_id, violation.file_path, violation.line, context.file_content)
 
 
 @opaque
 def ts_reported(lit: TSLitT, file_path: OptPath, content: Opt(Str), allowed: SeqOf(Int)) -> Bool:
-    return ts_flag(lit[1], lit[0], file_path, allowed) and not ts_inline_ignored(RULE_ID, lit[2], content)
+    return ts_flag(lit[1], lit[0], file_path, allowed) and not ts_inline_ignored(RULE_ID, fp_text(file_path), lit[2], content)
 
 
 @opaque
@@ -1147,8 +1163,8 @@ def rust_flag(value, node, allowed):
 
 
 @opaque
-def rust_reported(lit: TSLitT, content: Opt(Str), allowed: SeqOf(Int)) -> Bool:
-    return rust_flag(lit[1], lit[0], allowed) and not inline_ignored(RULE_ID, lit[2], content)
+def rust_reported(lit: TSLitT, file_path: OptPath, content: Opt(Str), allowed: SeqOf(Int)) -> Bool:
+    return rust_flag(lit[1], lit[0], allowed) and not inline_ignored(RULE_ID, fp_text(file_path), lit[2], content)
 
 
 @opaque
@@ -1165,14 +1181,16 @@ class TryCreateRustViolation:
 
     def reveals(self, node, value, line_number, context, config, analyzer):
         return (reveal(rust_violation, (node, value, line_number), context.file_path)
-                and reveal(rust_reported, (node, value, line_number), context.file_content, config.allowed_numbers))
+                and reveal(rust_reported, (node, value, line_number), context.file_path, context.file_content, config.allowed_numbers))
 
     def ensures_reported_iff_flagged_and_not_suppressed(self, node, value, line_number, context, config, analyzer, result):
-        return (result is not None) == rust_reported((node, value, line_number), context.file_content, config.allowed_numbers)
+        return (result is not None) == rust_reported((node, value, line_number), context.file_path, context.file_content,
+                                                     config.allowed_numbers)
 
     def ensures_flag_iff_not_allowed_and_not_exempt(self, node, value, line_number, context, config, analyzer, result):
         return (result is not None) == (rust_flag(value, node, config.allowed_numbers)
-                                        and not inline_ignored(RULE_ID, line_number, context.file_content))
+                                        and not inline_ignored(RULE_ID, fp_text(context.file_path), line_number,
+                                                               context.file_content))
 
     def ensures_violation_on_the_literals_line_naming_its_value(self, node, value, line_number, context, config, analyzer,
                                                                 result):
@@ -1186,7 +1204,7 @@ def collect_rust(lits: SeqOf(TSLitT), acc: SeqOf(ViolationT), file_path: OptPath
     """acc followed by one violation per reported literal, in collection order."""
     if len(lits) == 0:
         return acc
-    if rust_reported(lits[0], content, allowed):
+    if rust_reported(lits[0], file_path, content, allowed):
         return collect_rust(lits[1:], acc + [rust_violation(lits[0], file_path)], file_path, content, allowed)
     return collect_rust(lits[1:], acc, file_path, content, allowed)
 
@@ -1242,11 +1260,19 @@ definition_file = uf("c02_definition_file", [OptPath, Opt(Str)], Bool)
 py_tree = uf("c02_py_tree", [Opt(Str)], PyNode)  # ast.parse(code or "") -- None on SyntaxError (parser trusted)
 
 
+def no_empty_pattern(patterns):
+    return all(len(p) > 0 for p in patterns)
+
+
 @contract(LI + "MagicNumberRule._is_file_ignored", props=["C02"], types=dict(self=RuleT, context=CtxT, config=ConfigT),
           returns=Bool,
           assumed="glob matching of the file path against config.ignore (pathlib.Path.match is external; ignore-pattern "
                   "path handling is property C09's subject): an uninterpreted predicate of (path, patterns)")
 class IsFileIgnored:
+    def requires(self, context, config):
+        # an EMPTY ignore pattern makes pathlib.Path.match raise ValueError('empty pattern') (observed natively)
+        return no_empty_pattern(config.ignore)
+
     def value(self, context, config):
         return file_ignored(context.file_path, config.ignore)
 
@@ -1279,7 +1305,7 @@ def py_file_exempt(context, config):
           returns=SeqOf(ViolationT))
 class CheckPython:
     def requires(self, context, config):
-        return wf_rule(self)
+        return wf_rule(self) and no_empty_pattern(config.ignore)
 
     def ensures_exempt_file_or_unparsable_no_violations(self, context, config, result):
         return implies(py_file_exempt(context, config) or py_tree(context.file_content) is None, result == [])
@@ -1556,7 +1582,7 @@ def text_of(content):
           returns=SeqOf(ViolationT), inline=["__init__"])
 class CheckTypescript:
     def requires(self, context, config):
-        return wf_rule(self)
+        return wf_rule(self) and no_empty_pattern(config.ignore)
 
     def ensures_ignored_file_no_violations(self, context, config, result):
         return implies(file_ignored(context.file_path, config.ignore), result == [])
@@ -1571,7 +1597,7 @@ class CheckTypescript:
           returns=SeqOf(ViolationT), inline=["__init__"])
 class CheckRust:
     def requires(self, context, config):
-        return wf_rule(self)
+        return wf_rule(self) and no_empty_pattern(config.ignore)
 
     def ensures_ignored_file_no_violations(self, context, config, result):
         return implies(file_ignored(context.file_path, config.ignore), result == [])
@@ -1579,3 +1605,153 @@ class CheckRust:
     def ensures_one_violation_per_reported_literal_of_the_file(self, context, config, result):
         return result == [] or result == collect_rust(rust_walk(rust_root(text_of(context.file_content)), []), [],
                                                       context.file_path, context.file_content, config.allowed_numbers)
+
+
+# =================================================================== native generators (CPython cross-check / witness search)
+# Used only by pyvc/selftest.py: realistic concrete inputs for the Python path, so that the real functions can be run
+# against the same contract text natively (thorough tier) and a refuted invariant can be turned into a failing input.
+_PY_SNIPPETS = ("x = 7", "MAX_SIZE = 100", "X = 5", "for i in range(3): pass", "for i in range(50): pass",
+                "for i, v in enumerate(items, 1): pass", "for i, v in enumerate(items, 42): pass", "line = '-' * 40",
+                "y = f(9, 2) + 0x1e", "flag = True", "t = timeout * 3600", "z = [10, 11, 12]", "w = -1", "ok = 3 * 'ab'")
+
+
+def _gen_py_lit(g):
+    import ast as _a
+    tree = _a.parse(g.rng.choice(_PY_SNIPPETS))
+    parents = {c: p for p in _a.walk(tree) for c in _a.iter_child_nodes(p)}
+    nodes = [n for n in _a.walk(tree) if isinstance(n, _a.Constant) and isinstance(n.value, int)]
+    n = g.rng.choice(nodes)
+    return (n, parents.get(n), n.value, n.lineno)
+
+
+def _gen_rule(g):
+    from src.linters.magic_numbers.linter import MagicNumberRule
+    return MagicNumberRule()
+
+
+def _gen_ctx(g):
+    import pathlib
+    import types as _t
+    name = g.rng.choice(["src/app.py", "tests/test_app.py", "pkg/util_test.py", "a.ts", "x/y.test.ts", "lib.rs"])
+    content = g.rng.choice([None, "x = 7\n", "x = 7  # noqa\ny = 8\n", "a\nb  # thailint: ignore\nc\n"])
+    return _t.SimpleNamespace(file_path=g.rng.choice([None, pathlib.PurePosixPath(name)]), file_content=content,
+                              language="python")
+
+
+PyLitT.native_gen = _gen_py_lit
+RuleT.native_gen = _gen_rule
+CtxT.native_gen = _gen_ctx
+
+
+# =================================================================== file-level consequences (induction over the literal list)
+@lemma(props=["C02"], types=dict(lits=SeqOf(PyLitT), acc=SeqOf(ViolationT), file_path=OptPath, content=Opt(Str),
+                                 allowed=SeqOf(Int), max_small=Int), name="python-exactly-one-violation-per-reported-literal")
+def py_exactly_once(lits, acc, file_path, content, allowed, max_small):
+    """The fold adds exactly one violation per reported literal (no double reporting, nothing dropped)."""
+    if len(lits) == 0:
+        return len(collect_py(lits, acc, file_path, content, allowed, max_small)) == \
+            len(acc) + sum(1 for lit in lits if py_reported(lit, file_path, content, allowed, max_small))
+    if py_reported(lits[0], file_path, content, allowed, max_small):
+        ih(py_exactly_once, lits[1:], acc + [py_violation(lits[0], file_path)], file_path, content, allowed, max_small)
+    else:
+        ih(py_exactly_once, lits[1:], acc, file_path, content, allowed, max_small)
+    return len(collect_py(lits, acc, file_path, content, allowed, max_small)) == \
+        len(acc) + sum(1 for lit in lits if py_reported(lit, file_path, content, allowed, max_small))
+
+
+def without_value(lits: SeqOf(PyLitT), a: Int) -> SeqOf(PyLitT):
+    """The literals whose value is not a (Python equality: True == 1)."""
+    if len(lits) == 0:
+        return []
+    if lits[0][2] == a:
+        return without_value(lits[1:], a)
+    return [lits[0]] + without_value(lits[1:], a)
+
+
+@lemma(props=["C02"], types=dict(lits=SeqOf(PyLitT), acc=SeqOf(ViolationT), file_path=OptPath, content=Opt(Str),
+                                 allowed=SeqOf(Int), max_small=Int, a=Int), name="python-file-level-allowed-numbers-delta")
+def py_file_delta(lits, acc, file_path, content, allowed, max_small, a):
+    """PROPERTY: adding a value to allowed_numbers removes exactly the violations for literals of that value (and
+    removing it adds exactly those): the violations with A + {a} are the violations with A of the literals whose value
+    is not a -- for integer-valued literals."""
+    if not all(isinstance(lit[2], int) for lit in lits):
+        return True
+    if len(lits) == 0:
+        return collect_py(lits, acc, file_path, content, allowed + [a], max_small) == \
+            collect_py(without_value(lits, a), acc, file_path, content, allowed, max_small)
+    reveal(py_reported, lits[0], file_path, content, allowed, max_small)
+    reveal(py_reported, lits[0], file_path, content, allowed + [a], max_small)
+    if py_reported(lits[0], file_path, content, allowed + [a], max_small):
+        ih(py_file_delta, lits[1:], acc + [py_violation(lits[0], file_path)], file_path, content, allowed, max_small, a)
+    else:
+        ih(py_file_delta, lits[1:], acc, file_path, content, allowed, max_small, a)
+    return collect_py(lits, acc, file_path, content, allowed + [a], max_small) == \
+        collect_py(without_value(lits, a), acc, file_path, content, allowed, max_small)
+
+
+def without_value_ts(lits: SeqOf(TSLitT), a: Int) -> SeqOf(TSLitT):
+    if len(lits) == 0:
+        return []
+    if lits[0][1] == a:
+        return without_value_ts(lits[1:], a)
+    return [lits[0]] + without_value_ts(lits[1:], a)
+
+
+@lemma(props=["C02"], types=dict(lits=SeqOf(TSLitT), acc=SeqOf(ViolationT), file_path=OptPath, content=Opt(Str),
+                                 allowed=SeqOf(Int)), name="typescript-exactly-one-violation-per-reported-literal")
+def ts_exactly_once(lits, acc, file_path, content, allowed):
+    if len(lits) == 0:
+        return len(collect_ts(lits, acc, file_path, content, allowed)) == \
+            len(acc) + sum(1 for lit in lits if ts_reported(lit, file_path, content, allowed))
+    if ts_reported(lits[0], file_path, content, allowed):
+        ih(ts_exactly_once, lits[1:], acc + [ts_violation(lits[0], file_path)], file_path, content, allowed)
+    else:
+        ih(ts_exactly_once, lits[1:], acc, file_path, content, allowed)
+    return len(collect_ts(lits, acc, file_path, content, allowed)) == \
+        len(acc) + sum(1 for lit in lits if ts_reported(lit, file_path, content, allowed))
+
+
+@lemma(props=["C02"], types=dict(lits=SeqOf(TSLitT), acc=SeqOf(ViolationT), file_path=OptPath, content=Opt(Str),
+                                 allowed=SeqOf(Int), a=Int), name="typescript-file-level-allowed-numbers-delta")
+def ts_file_delta(lits, acc, file_path, content, allowed, a):
+    if len(lits) == 0:
+        return collect_ts(lits, acc, file_path, content, allowed + [a]) == \
+            collect_ts(without_value_ts(lits, a), acc, file_path, content, allowed)
+    reveal(ts_reported, lits[0], file_path, content, allowed)
+    reveal(ts_reported, lits[0], file_path, content, allowed + [a])
+    if ts_reported(lits[0], file_path, content, allowed + [a]):
+        ih(ts_file_delta, lits[1:], acc + [ts_violation(lits[0], file_path)], file_path, content, allowed, a)
+    else:
+        ih(ts_file_delta, lits[1:], acc, file_path, content, allowed, a)
+    return collect_ts(lits, acc, file_path, content, allowed + [a]) == \
+        collect_ts(without_value_ts(lits, a), acc, file_path, content, allowed)
+
+
+@lemma(props=["C02"], types=dict(lits=SeqOf(TSLitT), acc=SeqOf(ViolationT), file_path=OptPath, content=Opt(Str),
+                                 allowed=SeqOf(Int)), name="rust-exactly-one-violation-per-reported-literal")
+def rust_exactly_once(lits, acc, file_path, content, allowed):
+    if len(lits) == 0:
+        return len(collect_rust(lits, acc, file_path, content, allowed)) == \
+            len(acc) + sum(1 for lit in lits if rust_reported(lit, file_path, content, allowed))
+    if rust_reported(lits[0], file_path, content, allowed):
+        ih(rust_exactly_once, lits[1:], acc + [rust_violation(lits[0], file_path)], file_path, content, allowed)
+    else:
+        ih(rust_exactly_once, lits[1:], acc, file_path, content, allowed)
+    return len(collect_rust(lits, acc, file_path, content, allowed)) == \
+        len(acc) + sum(1 for lit in lits if rust_reported(lit, file_path, content, allowed))
+
+
+@lemma(props=["C02"], types=dict(lits=SeqOf(TSLitT), acc=SeqOf(ViolationT), file_path=OptPath, content=Opt(Str),
+                                 allowed=SeqOf(Int), a=Int), name="rust-file-level-allowed-numbers-delta")
+def rust_file_delta(lits, acc, file_path, content, allowed, a):
+    if len(lits) == 0:
+        return collect_rust(lits, acc, file_path, content, allowed + [a]) == \
+            collect_rust(without_value_ts(lits, a), acc, file_path, content, allowed)
+    reveal(rust_reported, lits[0], file_path, content, allowed)
+    reveal(rust_reported, lits[0], file_path, content, allowed + [a])
+    if rust_reported(lits[0], file_path, content, allowed + [a]):
+        ih(rust_file_delta, lits[1:], acc + [rust_violation(lits[0], file_path)], file_path, content, allowed, a)
+    else:
+        ih(rust_file_delta, lits[1:], acc, file_path, content, allowed, a)
+    return collect_rust(lits, acc, file_path, content, allowed + [a]) == \
+        collect_rust(without_value_ts(lits, a), acc, file_path, content, allowed)
